@@ -571,6 +571,24 @@ func (fr *Frame) loopEnv(li *loopInfo, st *State, phiVal func(*ssa.Phi) Term, gh
 				return Term{"(+ " + phiVal(phi).S + " 1)", SInt}, mathInt, true
 			}
 		}
+		if name == "$io" {
+			// index of the current element of the innermost enclosing range-over-slice loop
+			var outer *loopInfo
+			for _, lo := range fr.loopList {
+				if lo != li && lo.body[li.header] && (outer == nil || len(lo.body) < len(outer.body)) {
+					outer = lo
+				}
+			}
+			if outer != nil {
+				for _, phi := range phisOf(outer.header) {
+					if phi.Comment == "rangeindex" {
+						if t, ok := fr.vals[phi]; ok {
+							return Term{"(+ " + t.S + " 1)", SInt}, mathInt, true
+						}
+					}
+				}
+			}
+		}
 		if name == "$visited" {
 			// set of keys already yielded by the map range of this loop
 			for _, ins := range li.header.Instrs {
